@@ -15,7 +15,7 @@ CLAIMS = {
             "revm and the bundle builder are assumed dependencies; composition of the per-function facts across worker/finality/commit threads is a paper argument (DESIGN.md section 6)"),
     "C02": ("per-function obligations: each commit appends exactly one state and one outcome at boundary len+1 or nothing (U05); the commit loop calls commit with txid == outcomes so far, publishes only after apply, releases dependents only after publishing (U04 run_commit_loop); a transaction becomes Unconfirmed only if every read is currently valid with a stamp taken before the scan (U04 validate); every (re-)execution issues the rewind that re-validates successors (U04 execute_task); finality gate and no-skip (U04); rewind stamp published before the index becomes claimable (U03).",
             "composition across the three kinds of threads is on paper; atomics/locks are stand-ins with rely/guarantee and lock-scoped specs"),
-    "C03": ("per-function obligations: nonce mismatch against the COMMITTED nonce is never committed speculatively and changes nothing, MAX/MAX goes to replay, no nonce-based outcome with checking off (U05); a speculative validation error only parks the transaction, sequential replay is requested only at the commit head (U04 execute_task X5); replay maps Err(Transaction(e)) to Skipped(e) with the same e, continues, and classifies nonce overflow (U06).",
+    "C03": ("per-function obligations: nonce mismatch against the COMMITTED nonce is never committed speculatively and changes nothing, MAX/MAX goes to replay, no nonce-based outcome with checking off (U05); a speculative validation error only parks the transaction, sequential replay is requested only at the commit head (U04 execute_task X5); replay maps Err(Transaction(e)) to Skipped(e) with the same e and continues; its nonce-overflow pre-check is under contract, and the obligation that a Skipped reason is never fabricated ahead of revm's own validation fails there on the unchanged tree: known finding F3 (known_findings.json, DESIGN.md section 8), reported as KNOWN-FINDING, exit 0 (U06).",
             "that revm's validation is the reference is assumed; the replay closure body (EVM driving) is a stub"),
     "C04": ("narrow: on a fatal replay error the outcomes are exactly the first k-start and the error carries index k (U06); a database fault at commit returns Err(txid) and appends nothing (U05, U04 run_commit_loop E3); a fatal abort is requested only by an attempt that observes itself at the commit head (U04 X5). The sentence about failures seen only by stale speculative attempts is not decidable here (DESIGN.md section 8, F2).",
             "post_execute (nested closures over OnceLock) is not extracted"),
